@@ -305,6 +305,10 @@ def record_corpus(pid, tier, wd):
     if not os.path.exists(outf):
         return None, 'recording the test suite failed: ' + p.stdout[-800:]
     traces = json.load(open(outf))
+    if tier != 'thorough' and len(traces) > 80:
+        # quick tier: an evenly spread selection (the thorough tier validates every recorded connection)
+        k = len(traces) / 80.0
+        traces = [traces[int(i * k)] for i in range(80)]
     return traces, None
 
 
